@@ -22,7 +22,11 @@ def label_expression(lab, rng, free=False):
     if ind == "INV":
         w = rng.choice(WORDS[rng.choice(["MUSS", "SOLL", "KANN", "PFX"])])
         k = rng.choice([1, 3, 5])
-        return rng.choice([f"{w} [{k}] O [501]", f"{w} [501] X [{k}]", f"{w} ([{k}] U [2]) O [502]"])
+        forms = [f"{w} [{k}] O [501]", f"{w} [501] X [{k}]", f"{w} ([{k}] U [2]) O [502]"]
+        if w[0] in "MmSsKk":
+            # several modal marks: the invalid composition sits behind a fulfilled / in front of another conditioned part
+            forms += [f"Muss [1] {w} [{k}] O [501]", f"{w} [{k}] O [501] Kann [1]", f"Kann [3] {w} [502] X [{k}] Soll [2]"]
+        return rng.choice(forms)
     w = rng.choice(WORDS[ind])
     k = rng.choice(KEYS[ful])
     forms = [f"{w} [{k}]", f"{w}[{k}]", f"{w} [{k}] U [501]"]
